@@ -351,6 +351,11 @@ fn report(ctx: &Ctx, sc: &Scen, ph: Phase, h: &[usize], k: u64, mode: FaultMode,
 /// derivatives) fitted from starts whose trial steps cross the bound.  No injected index: the optimizer decides
 /// where the failure happens.
 fn domain_fits<T: Sc>(ctx: &Ctx, thorough: bool) {
+    domain_fits_filtered::<T>(ctx, thorough, None)
+}
+
+/// `only` = the case description of a replay: every case is generated, only the matching one runs
+fn domain_fits_filtered<T: Sc>(ctx: &Ctx, thorough: bool, only: Option<&Value>) {
     use std::sync::atomic::Ordering;
     let fams = [Family::Exp1Off, Family::Exp2Off];
     let mut idx = 1_000_000u64;
@@ -366,7 +371,7 @@ fn domain_fits<T: Sc>(ctx: &Ctx, thorough: bool) {
                                     continue;
                                 }
                                 idx += 1;
-                                if !ctx.args.mine(idx) {
+                                if only.is_none() && !ctx.args.mine(idx) {
                                     continue;
                                 }
                                 ctx.tick();
@@ -380,6 +385,11 @@ fn domain_fits<T: Sc>(ctx: &Ctx, thorough: bool) {
                                 let bound = a[0] * bound_frac;
                                 let a0: Vec<f64> = a.iter().map(|v| v * start).collect();
                                 let case = json!({"domain_fit": {"family": fam.name(), "reject_at": format!("{:?}", at), "reject_when_tau0_le": bound, "start": a0, "s": s, "par": par, "patience": patience, "prov": prov.name(), "scalar": T::NAME}});
+                                if let Some(o) = only {
+                                    if o != &case {
+                                        continue;
+                                    }
+                                }
                                 let api = if s == 1 { Api::Single } else { Api::Mrhs };
                                 let mk = |alpha: &[T]| Domain::wrap(make_t::<T>(&spec, prov, alpha), at, 0, bound);
                                 let a0t: Vec<T> = a0.iter().map(|&v| T::f(v)).collect();
@@ -472,6 +482,15 @@ fn main() {
         let depth: usize = ctx.args.extra.get("depth").map(|s| s.parse().unwrap()).unwrap_or(if ctx.args.thorough() { 3 } else { 2 });
         if let Some(r) = &ctx.args.replay {
             let v: Value = serde_json::from_str(r).unwrap();
+            if let Some(d) = v.get("domain_fit") {
+                // the quick and the thorough tier generate different subsets: look in the larger one
+                if d["scalar"] == "f32" {
+                    domain_fits_filtered::<f32>(&ctx, true, Some(&v));
+                } else {
+                    domain_fits_filtered::<f64>(&ctx, true, Some(&v));
+                }
+                return;
+            }
             let sc = scen_parse(&v["scenario"]);
             let ph = match v["phase"].as_str().unwrap() {
                 "History" => Phase::History,
